@@ -189,7 +189,10 @@ def materialise(scn, d, scheme='structural', name_tables=False):
     leaf = tj['hier'][-1]
     if name_tables:
         tree['name_mapper'] = {
-            nm.level(l): {nm.node(l, n): {'name': f'nm{l} "{nm.node(l, n)}", x', 'alias': f'a{l}{n}'}
+            # taxonomies with an odd number of leaves store their aliases as JSON numbers (the way cluster_alias is typed
+            # in the ABC atlas tables), the others as text
+            nm.level(l): {nm.node(l, n): {'name': f'nm{l} "{nm.node(l, n)}", x',
+                                          'alias': (int(f'{l}{n}') if len(tj['nodes'][-1]) % 2 else f'a{l}{n}')}
                           for n in tj['nodes'][i]} for i, l in enumerate(tj['hier'])}
         tree['hierarchy_mapper'] = {nm.level(l): f'H{l}' for l in tj['hier']}
     G = scn['G']
